@@ -2,6 +2,7 @@
 import concurrent.futures as cf
 import json
 import os
+import re
 import time
 
 import vlib
@@ -181,7 +182,11 @@ def run(prop, tier, replay):
         if r["violated"]:
             out.report({"spec": "FeatureFlags", "invariant": r["violated"]},
                        f"the design-level model violates {r['violated']} (see {r['out']})", {})
-        zero = [a for a in ACTIONS if r["coverage"].get(a, 0) == 0]
+        # (taken = the second coverage number: an action such as Refresh may only re-reach known states)
+        taken = {m.group(1): int(m.group(2)) for m in
+                 re.finditer(r"^<(\w+) line \d+, col \d+ to line \d+, col \d+ of module FeatureFlags>: \d+:(\d+)",
+                             open(r["out"]).read(), re.M)}
+        zero = [a for a in ACTIONS if taken.get(a, 0) == 0]
         if zero:
             raise vlib.ToolError(f"vacuous model run: actions never taken {zero}")
         states, trans = r.get("distinct", 0), r.get("generated", 0)
